@@ -233,6 +233,12 @@ impl Ctx {
         }
     }
 
+    /// Non-campaign work (exhaustive small-scope enumeration, grids) runs once: in the main
+    /// process, or in the first child of an isolated run.
+    pub fn runs_once_here(&self) -> bool {
+        self.child.as_ref().map(|c| c.index == 0 && c.restart == 0).unwrap_or(true)
+    }
+
     pub fn scratch(&self, tag: &str) -> PathBuf {
         scratch_dir(&format!("{}-{}", self.id, tag))
     }
@@ -599,6 +605,32 @@ pub struct CampaignCfg {
     pub max_restarts: u32,
 }
 
+/// Set once a worker has shrunk and recorded a failure: the remaining workers (threads of this
+/// process and, through the stop file named by VERIF_STOP_FILE, the other child processes) stop
+/// generating cases and cut their own shrinking short. One shrunk counterexample is what a run on
+/// a broken tree needs; sixteen workers each shrinking their own can take an hour.
+static STOP: std::sync::atomic::AtomicBool = std::sync::atomic::AtomicBool::new(false);
+
+pub fn request_stop() {
+    STOP.store(true, std::sync::atomic::Ordering::SeqCst);
+    if let Ok(p) = std::env::var("VERIF_STOP_FILE") {
+        let _ = std::fs::write(p, b"stop");
+    }
+}
+
+pub fn stop_requested() -> bool {
+    if STOP.load(std::sync::atomic::Ordering::Relaxed) {
+        return true;
+    }
+    if let Ok(p) = std::env::var("VERIF_STOP_FILE") {
+        if Path::new(&p).exists() {
+            STOP.store(true, std::sync::atomic::Ordering::Relaxed);
+            return true;
+        }
+    }
+    false
+}
+
 struct WorkerStats {
     evaluations: u64,
     nontrivial: HashSet<u64>,
@@ -657,6 +689,11 @@ where
             if st.done_cases % 8 == 0 {
                 progress(&st);
             }
+        }
+        if stop_requested() {
+            // another worker already delivered a counterexample: skip the remaining cases and
+            // end a shrink in progress (every further candidate "passes")
+            return Ok(());
         }
         let r = test(&v);
         if *failed.borrow() {
@@ -734,7 +771,11 @@ where
                     format!("the minimal case did not fail when re-executed; it had failed with: {reason}"),
                 ),
             };
+            let is_harness = fail.sig.starts_with("harness:");
             st.failure = Some((serde_json::to_value(&value).unwrap_or(Value::Null), fail));
+            if !is_harness {
+                request_stop();
+            }
         }
         Err(TestError::Abort(reason)) => {
             eprintln!("HARNESS: proptest aborted: {reason}");
@@ -812,7 +853,7 @@ where
                             out.push(st);
                             if failed {
                                 restart += 1;
-                                if restart > cfg.max_restarts {
+                                if restart > cfg.max_restarts || stop_requested() {
                                     break;
                                 }
                             } else {
